@@ -205,12 +205,13 @@ func (f *FS) Content(dir, name string) ([]byte, bool) {
 	return f.Inodes[ino], true
 }
 
-// Chunk builds attributable file data: 8-byte words id<<24|index, so both the
-// identity of the write and the position inside it can be read off any byte range.
+// Chunk builds attributable file data: 8-byte little-endian words
+// index<<40|id (so even a 1-byte chunk carries the low byte of its id): both
+// the identity of the write and the position inside it can be read off.
 func Chunk(id uint64, n int) []byte {
 	b := make([]byte, n)
 	for i := 0; i < n; i++ {
-		w := id<<24 | uint64(i/8)
+		w := uint64(i/8)<<40 | id&(1<<40-1)
 		b[i] = byte(w >> (8 * uint(i%8)))
 	}
 	return b
@@ -225,26 +226,26 @@ func DescribeBytes(b []byte) string {
 	i := 0
 	for i < len(b) && len(parts) < 6 {
 		if i+8 > len(b) {
-			parts = append(parts, fmt.Sprintf("+%d tail bytes", len(b)-i))
+			parts = append(parts, fmt.Sprintf("+%d tail bytes %x", len(b)-i, b[i:]))
 			break
 		}
 		var w uint64
 		for j := 0; j < 8; j++ {
 			w |= uint64(b[i+j]) << (8 * uint(j))
 		}
-		id := w >> 24
+		id := w & (1<<40 - 1)
 		j := i
 		for j+8 <= len(b) {
 			var w2 uint64
 			for k := 0; k < 8; k++ {
 				w2 |= uint64(b[j+k]) << (8 * uint(k))
 			}
-			if w2>>24 != id {
+			if w2&(1<<40-1) != id {
 				break
 			}
 			j += 8
 		}
-		parts = append(parts, fmt.Sprintf("%dB of chunk %#x from word %d", j-i, id, w&0xffffff))
+		parts = append(parts, fmt.Sprintf("%dB of chunk %#x from word %d", j-i, id, w>>40))
 		if j == i {
 			j = i + 8
 		}
